@@ -93,6 +93,30 @@ pub fn events(thorough: bool) -> Vec<Event> {
     add("macro+if/strict21", scope_case(&two("macro", "if-branch"), NamePolicy::Fresh, Some(SIGILS[1])).prog.text(), SIGILS[1], 0);
     add("cse-candidates/cl23", "(mod (A B) (include *standard-cl-23*) (defun F (X Y) (if X (list (sha256 X Y) (sha256 X Y) (+ (* X Y) (* X Y))) (list (* X Y) (sha256 X Y)))) (F A B))".to_string(), SIGILS[3], 1);
     add("deinline-candidates/cl24", "(mod (A B) (include *standard-cl-24*) (defun F (X Y) (let ((P (+ X Y)) (Q (* X Y))) (let ((R (- P Q)) (S (+ P Q))) (assign T (c R S) U (c T T) (list P Q R S T U))))) (defun G (Z) (let ((W (F Z Z))) (c W W))) (c (F A B) (G B)))".to_string(), SIGILS[5], 1);
+    // twins: pairs of programs that differ in ONE same-length constant inside a helper (same names, same source
+    // extents, same file name), plus a third variant of the first that fails during code generation (a call of an
+    // undefined function at the end of the main expression). Any state keyed more coarsely than the full content
+    // (by name, by location, by shape) and any state left behind by the failing variant shows up as twin b
+    // compiled after twin a / after the failing twin differing from its solo output.
+    {
+        let twins: Vec<(&str, &str, &'static str, usize)> = vec![
+            ("defmacro", "(defmacro M (X) (qq (+ (unquote X) @K@))) (c (M A) @TAIL@)", SIGILS[0], 0),
+            ("defmacro23", "(defmacro M (X) (qq (+ (unquote X) @K@))) (c (M A) @TAIL@)", SIGILS[3], 1),
+            ("defun-inline", "(defun-inline F (X) (+ X @K@)) (c (F A) @TAIL@)", SIGILS[3], 1),
+            ("defconst", "(defconst K (+ 1 @K@)) (c (+ K A) @TAIL@)", SIGILS[5], 1),
+            ("let-in-defun", "(defun F (X) (let ((Y (+ X @K@))) (c Y X))) (c (F A) @TAIL@)", SIGILS[0], 0),
+            ("defun", "(defun F (X) (+ X @K@)) (c (F A) @TAIL@)", SIGILS[5], 1),
+            ("lambda", "(defun F (X) (a (lambda ((& X) Z) (+ X Z @K@)) (list 1))) (c (F A) @TAIL@)", SIGILS[3], 1),
+            ("assign", "(defun F (X) (assign Y (+ X @K@) Z (* Y 2) (c Y Z))) (c (F A) @TAIL@)", SIGILS[5], 1),
+        ];
+        let n = if thorough { twins.len() } else { 5 };
+        for (name, body, sigil, optset) in twins.into_iter().take(n) {
+            let mk = |k: &str, tail: &str| format!("(mod (A) (include {}) {})", sigil, body.replace("@K@", k).replace("@TAIL@", tail));
+            add(&format!("twin-a:{}", name), mk("5", "A"), sigil, optset);
+            add(&format!("twin-b:{}", name), mk("7", "A"), sigil, optset);
+            add(&format!("FAIL:twin-a:{}", name), mk("5", "(ZZ A)"), sigil, optset);
+        }
+    }
     // failing compilations
     add("FAIL:reader-error", "(mod (A) (include *standard-cl-23*) (c A".to_string(), SIGILS[3], 1);
     add("FAIL:unbound-in-strict", "(mod (A) (include *standard-cl-24*) (defun F (X) (let ((Y (+ X 1))) (c Y ZZ))) (F A))".to_string(), SIGILS[5], 1);
@@ -383,7 +407,8 @@ pub fn c05(thorough: bool, replay: Option<String>) -> i32 {
     }
     counters.sort();
     counters.dedup();
-    let okev: Vec<usize> = (0..ne).collect();
+    // the twin-b / failing-twin events exist for the histories; their a-variants stand for them here
+    let okev: Vec<usize> = (0..ne).filter(|i| thorough || !(evs[*i].name.starts_with("twin-b:") || evs[*i].name.starts_with("FAIL:twin-a:"))).collect();
     let mut st = Stats::new();
     let mut capped = false;
     let t0 = std::time::Instant::now();
